@@ -123,6 +123,20 @@ impl<K: Eq, V, S> HashMap<K, V, S> {
 
 pub struct Entry<'a, K, V, S> { m: &'a mut HashMap<K, V, S>, k: K }
 
+/// General-purpose entry API (used by code under test that the pinned tree does not contain, e.g. edited trees):
+/// hands out a `&mut` into the matching slot, which is correct but costs symex its constant propagation.
+impl<'a, K: Eq + Copy, V, S> Entry<'a, K, V, S> {
+    pub fn or_insert_with<F: FnOnce() -> V>(self, f: F) -> &'a mut V {
+        if !self.m.contains_key(&self.k) {
+            self.m.insert(self.k, f());
+        }
+        self.m.get_mut(&self.k).unwrap()
+    }
+    pub fn or_insert(self, v: V) -> &'a mut V {
+        self.or_insert_with(|| v)
+    }
+}
+
 /// Proxy returned by `entry(k).or_default()` when the value is a set: it never materialises a
 /// `&mut` to a symbolically chosen slot; every update is a conditional update at a constant index.
 pub struct SetRef<'a, K, T, S, S2> { mp: *mut HashMap<K, HashSet<T, S2>, S>, k: K, _l: PhantomData<&'a mut ()> }
